@@ -347,16 +347,26 @@ func (f *fidRef) markChildDeleted(name string) {
 // recursively. Note that this applies only for subtrees, as these
 // notifications do not apply to the actual file whose name has changed.
 //
+// A reference whose count already dropped to zero is being destroyed: its
+// File is being (or has been) closed and it is about to remove itself from
+// its node, so it is skipped, exactly as removeWithName does. Every reference
+// that is notified is held while Renamed runs and appended to held; the caller
+// drops these references once no childMu is held any more, because a DecRef
+// may take childMu of this node or of its ancestors (removeChild).
+//
 // Precondition: this must be called via safelyGlobal.
-func notifyNameChange(pn *pathNode) {
+func notifyNameChange(pn *pathNode, held *[]*fidRef) {
 	// Call on all local references.
 	pn.forEachChildRef(func(ref *fidRef, name string) {
-		ref.file.Renamed(ref.parent.file, name)
+		if ref.TryIncRef() {
+			*held = append(*held, ref)
+			ref.file.Renamed(ref.parent.file, name)
+		}
 	})
 
 	// Call on all subtrees.
 	pn.forEachChildNode(func(pn *pathNode) {
-		notifyNameChange(pn)
+		notifyNameChange(pn, held)
 	})
 }
 
@@ -387,8 +397,13 @@ func (f *fidRef) renameChildTo(oldName string, target *fidRef, newName string) {
 	if origPathNode != nil {
 		// Replace the previous (now deleted) path node.
 		target.pathNode.addPathNodeFor(newName, origPathNode)
-		// Call Renamed on all children.
-		notifyNameChange(origPathNode)
+		// Call Renamed on all children, then drop the references taken
+		// for the duration of the callbacks.
+		var held []*fidRef
+		notifyNameChange(origPathNode, &held)
+		for _, ref := range held {
+			ref.DecRef()
+		}
 	}
 }
 
